@@ -24,6 +24,13 @@ func ghost_inWheel[K comparable, V any](n node.Node[K, V]) bool { panic("ghost")
 func ghost_calls_deleteExpiredFromBucket() int { panic("ghost") }
 func ghost_calls_expireNode() int              { panic("ghost") }
 
+// removal notifications issued / removals recorded by the cache (the callback's effects, see (*cache).evictNode)
+func ghost_calls_notifyDeletion() int { panic("ghost") }
+func ghost_evictions() uint64         { panic("ghost") }
+
+// SpecWfWheel exports the wheel's shape invariant to the cache package's contracts.
+func SpecWfWheel[K comparable, V any](v *Variable[K, V]) bool { return wfWheel(v) }
+
 func minU64(a, b uint64) uint64 {
 	if a < b {
 		return a
@@ -136,7 +143,8 @@ func lemmaL3(e, t, t1 uint64, i int, s uint64) bool {
 	return visited(s, t, t1, i)
 }
 
-//@ macro SWEEPFX = node::state, node::queueType, node::prev, node::next, node::prevExp, node::nextExp, ghost_inWheel(*), ghost_calls_expireNode(), cache::drainStatus, cache::evictionMutex, policy::*, Linked::*, sketch::*, task::*, ghost_tbl(*), ghost_calls(*), ghost_inDeque(*), ghost_evictions(), ghost_evictionWeight(), ghost_calls_onDeletion(), ghost_calls_onAtomicDeletion()
+//@ macro SWEEPFX = node::state, node::queueType, node::prev, node::next, node::prevExp, node::nextExp, ghost_inWheel(*), ghost_calls_expireNode(), policy::weightedSize, policy::windowWeightedSize, policy::mainProtectedWeightedSize, Linked::*, ghost_tbl(*), ghost_calls(*), ghost_inDeque(*), ghost_evictions(), ghost_evictionWeight(), ghost_calls_onDeletion(), ghost_calls_notifyDeletion(), ghost_calls_onAtomicDeletion()
+//@ macro EVDELTA = uint64(ghost_calls_notifyDeletion()) - ghost_evictions()
 
 //@ func lemmaL1 : C13
 //@   ensures [C13:L1-placement-establishes-invariant] result
@@ -178,14 +186,23 @@ func lemmaL3(e, t, t1 uint64, i int, s uint64) bool {
 //@   modifies $SWEEPFX
 //@   callback expireNode: requires [C07:expiration-justified] cb_nowNanos == int64(v.time) && uint64(ghost_expiresAt(cb_n)) < v.time
 //@   callback expireNode: modifies $SWEEPFX
+//@   callback expireNode: ensures [C06:one-notification-per-expiration] $EVDELTA == pre($EVDELTA)
+//@   loop 1: invariant [C06:expirations-notified-one-to-one] $EVDELTA == pre($EVDELTA)
+//@   loop 2: invariant [C06:expirations-notified-one-to-one] $EVDELTA == pre($EVDELTA)
+//@   ensures [C06:expirations-notified-one-to-one] $EVDELTA == pre($EVDELTA)
 //@   loop 1: invariant [C13:sweep-range] start == prevTicks&(buckets[index]-1) && end == start+minU64(delta+1, buckets[index]) && mask == buckets[index]-1 && i >= start && i <= end && wfWheel(v) && index >= 0 && index < 5 && same(timerWheel, v.wheel[index])
 //@   loop 2: invariant [inner] wfWheel(v) && index >= 0 && index < 5
+//@   loop 2: assume [A-ring] n != nil
+//@   callback expireNode: requires [expired-node-exists] cb_n != nil
 
 //@ func (*Variable).DeleteExpired : C13 C07
 //@   requires wfWheel(v) && ghost_hasExp() && ghost_hasExpLinks() && nowNanos >= 0
 //@   modifies $SWEEPFX, v.time, ghost_calls_deleteExpiredFromBucket()
 //@   loop 1: unroll 5
 //@   callback expireNode: requires [C07:expiration-justified] uint64(ghost_expiresAt(cb_n)) < uint64(cb_nowNanos)
+//@   callback expireNode: requires [expired-node-exists] cb_n != nil
 //@   callback expireNode: modifies $SWEEPFX
+//@   callback expireNode: ensures [C06:one-notification-per-expiration] $EVDELTA == pre($EVDELTA)
+//@   ensures [C06:expirations-notified-one-to-one] $EVDELTA == pre($EVDELTA)
 //@   ensures [C13:time-advanced] v.time == uint64(nowNanos)
 //@   ensures [C13:sweeps-levels-until-first-idle] ghost_calls_deleteExpiredFromBucket() == pre(ghost_calls_deleteExpiredFromBucket()) + levelsToSweep(pre(v.time), uint64(nowNanos))
